@@ -253,6 +253,9 @@ def main(mod):
                 inconclusive.append("monitor counter %s=%d below required %d" % (k, c.get(k, 0), mn))
     for l in known_lines:
         print(l)
+    if real:
+        hist = collections.Counter(v["key"] for v in real)
+        print("violation keys:", dict(hist.most_common(25)))
     replay_paths = []
     seen = set()
     for v in real:
